@@ -266,6 +266,41 @@ where
     }
 }
 
+/// a `fmt::Write` sink that refuses to grow beyond `cap` bytes
+struct Limited {
+    buf: String,
+    cap: usize,
+}
+
+impl std::fmt::Write for Limited {
+    fn write_str(&mut self, s: &str) -> std::fmt::Result {
+        if self.buf.len() + s.len() > self.cap {
+            return Err(std::fmt::Error);
+        }
+        self.buf.push_str(s);
+        Ok(())
+    }
+}
+
+/// format into a sink of limited capacity (the write may fail half-way), then format normally: what a failed or
+/// partial write leaves behind must not show in the next string
+fn op_fmtlim<T>(cap: usize, s: &str) -> String
+where
+    T: FromStr + PurlShape + Clone + PartialEq,
+    <T as PurlShape>::Error: From<<T as FromStr>::Err> + ErrName,
+{
+    let r = GenericPurl::<T>::from_str(s);
+    let mut o = format!("p={}", show_res(&r));
+    if let Ok(p) = &r {
+        let mut sink = Limited { buf: String::new(), cap };
+        let w = std::fmt::Write::write_fmt(&mut sink, format_args!("{}", p));
+        let s1 = p.to_string();
+        let padded = format!("{:>4}", p);
+        write!(o, " fmt={} s={} pad={}", if w.is_ok() { "OK" } else { "ERR" }, h(&s1), tf(padded == s1 || padded.trim_start() == s1)).unwrap();
+    }
+    o
+}
+
 // ---------------------------------------------------------------- qualifier scripts
 
 const KNOWN_KEYS: [&str; 7] = [
@@ -618,6 +653,27 @@ fn quals_step(q: &mut Qualifiers, a: &[&str]) -> Result<String, String> {
                 Err(e) => e.full(),
             }
         },
+        "cf" => {
+            // Clone::clone_from from a collection made of the given pairs; and Clone::clone gives an equal value
+            let mut items: Vec<(String, String)> = vec![];
+            let mut i = 1;
+            while i + 1 < a.len() {
+                items.push((unh(a[i])?, unh(a[i + 1])?));
+                i += 2;
+            }
+            match Qualifiers::try_from_iter(items.iter().map(|(k, v)| (k.as_str(), v.as_str()))) {
+                Ok(src) => {
+                    q.clone_from(&src);
+                    let c = q.clone();
+                    if c == *q && *q == src && hash_of(&c) == hash_of(&src) {
+                        "OK".to_string()
+                    } else {
+                        "OK!clone".to_string()
+                    }
+                },
+                Err(e) => e.full(),
+            }
+        },
         "eqk" | "cmpk" => {
             let i: usize = arg(a, 1)?.parse().map_err(|_| "bad index".to_string())?;
             let s = unh(arg(a, 2)?)?;
@@ -641,6 +697,15 @@ fn quals_step(q: &mut Qualifiers, a: &[&str]) -> Result<String, String> {
                 Some(s) => h(&s),
                 None => "~".to_string(),
             }
+        },
+        "tgck" => match q.try_get_typed::<Checksum>() {
+            // `try_get_typed::<Checksum>()`: absent / the parser's error / the parsed value serialised again
+            Ok(None) => "~".to_string(),
+            Err(e) => e.full(),
+            Ok(Some(c)) => match purl::SmallStringCompat::try_text(c) {
+                Ok(s) => h(&s),
+                Err(e) => e.full(),
+            },
         },
         "hast" => {
             let n: usize = arg(a, 1)?.parse().map_err(|_| "bad index".to_string())?;
@@ -1417,6 +1482,55 @@ fn op_serde(rest: &[&str]) -> Result<String, String> {
                 _ => "NA".to_string(),
             })
         },
+        // deserialize from one value of serde's data model (not through JSON): only string values may be accepted
+        "dev" => {
+            use serde::de::value::{
+                BoolDeserializer, BorrowedBytesDeserializer, BorrowedStrDeserializer, BytesDeserializer, CharDeserializer,
+                CowStrDeserializer, Error as VErr, F64Deserializer, I64Deserializer, SeqDeserializer, StrDeserializer,
+                StringDeserializer, U64Deserializer, UnitDeserializer,
+            };
+            use serde::Deserialize;
+            let kind = arg(rest, 2)?;
+            let payload = unh(arg(rest, 3)?)?;
+            fn go<'de, T, D>(d: D) -> String
+            where
+                T: PurlShape + Clone + FromStr,
+                <T as PurlShape>::Error: From<<T as FromStr>::Err> + std::fmt::Display,
+                GenericPurl<T>: Deserialize<'de>,
+                D: serde::Deserializer<'de, Error = VErr>,
+            {
+                match GenericPurl::<T>::deserialize(d) {
+                    Ok(p) => format!("OK:{}", show_parts_acc(&p)),
+                    Err(e) => format!("ERR:serde:{}", h(&e.to_string())),
+                }
+            }
+            macro_rules! with_kind {
+                ($t:ty) => {
+                    match kind {
+                        "str" => go::<$t, _>(StrDeserializer::<VErr>::new(&payload)),
+                        "string" => go::<$t, _>(StringDeserializer::<VErr>::new(payload.clone())),
+                        "bstr" => go::<$t, _>(BorrowedStrDeserializer::<VErr>::new(&payload)),
+                        "cow" => go::<$t, _>(CowStrDeserializer::<VErr>::new(Cow::Owned(payload.clone()))),
+                        "bytes" => go::<$t, _>(BytesDeserializer::<VErr>::new(payload.as_bytes())),
+                        "bbytes" => go::<$t, _>(BorrowedBytesDeserializer::<VErr>::new(payload.as_bytes())),
+                        "char" => go::<$t, _>(CharDeserializer::<VErr>::new(payload.chars().next().unwrap_or('p'))),
+                        "u64" => go::<$t, _>(U64Deserializer::<VErr>::new(payload.len() as u64)),
+                        "i64" => go::<$t, _>(I64Deserializer::<VErr>::new(-(payload.len() as i64))),
+                        "f64" => go::<$t, _>(F64Deserializer::<VErr>::new(payload.len() as f64)),
+                        "bool" => go::<$t, _>(BoolDeserializer::<VErr>::new(payload.is_empty())),
+                        "unit" => go::<$t, _>(UnitDeserializer::<VErr>::new()),
+                        "seq" => go::<$t, _>(SeqDeserializer::<_, VErr>::new(vec![payload.clone()].into_iter())),
+                        _ => return Err(format!("bad value kind {}", kind)),
+                    }
+                };
+            }
+            Ok(match shape {
+                "S" => with_kind!(String),
+                #[cfg(feature = "package-type")]
+                "P" => with_kind!(PackageType),
+                _ => "NA".to_string(),
+            })
+        },
         // parse a string, serialize the value, deserialize again
         "ser" => {
             let s = unh(arg(rest, 2)?)?;
@@ -1479,6 +1593,18 @@ fn dispatch(line: &str) -> Result<String, String> {
                 "M" => op_parse::<Small>(&s),
                 #[cfg(feature = "package-type")]
                 "P" => op_parse::<PackageType>(&s),
+                _ => "NA".to_string(),
+            })
+        },
+        "fmtlim" => {
+            let cap: usize = arg(&t, 2)?.parse().map_err(|_| "bad capacity".to_string())?;
+            let s = unh(arg(&t, 3)?)?;
+            Ok(match arg(&t, 1)? {
+                "S" => op_fmtlim::<String>(cap, &s),
+                #[cfg(feature = "smartstring")]
+                "M" => op_fmtlim::<Small>(cap, &s),
+                #[cfg(feature = "package-type")]
+                "P" => op_fmtlim::<PackageType>(cap, &s),
                 _ => "NA".to_string(),
             })
         },
